@@ -106,6 +106,7 @@ type workerState struct {
 	Groups      map[string]*VGroup  `json:"groups"`
 	Samples     []any               `json:"samples"`
 	LastIdx     int64               `json:"last_idx"`
+	Enumerated  int64               `json:"enumerated"`
 	CapHit      bool                `json:"cap_hit"`
 	Done        bool                `json:"done"`
 	Notes       map[string]any      `json:"notes,omitempty"`
@@ -126,7 +127,10 @@ type T struct {
 
 // SigCoord sets the coordinates used in the signature of a panic of this case
 // (default: the Coord).
-func (t *T) SigCoord(c string) { t.sigCoord = &c }
+func (t *T) SigCoord(c string) {
+	t.sigCoord = &c
+	t.r.writeProgress(t.CaseID, t.coord+"\x01"+c)
+}
 
 // Class sets the outcome class of the case (for the histogram).
 func (t *T) Class(c string) { t.class = c }
@@ -148,6 +152,10 @@ func (t *T) Sample(s any) { t.sample = s }
 // code; used for the signature of a fatal error / hang.
 func (t *T) Coord(c string) {
 	t.coord = c
+	if t.sigCoord != nil {
+		t.r.writeProgress(t.CaseID, c+"\x01"+*t.sigCoord)
+		return
+	}
 	t.r.writeProgress(t.CaseID, c)
 }
 
@@ -323,6 +331,7 @@ func PanicSig(e any, stack string) string {
 	if i := strings.IndexByte(msg, '\n'); i >= 0 {
 		msg = msg[:i]
 	}
+	msg = strings.ReplaceAll(msg, "\u00a0", " ") // protobuf-go randomises "proto: " / "proto:\u00a0"
 	if strings.HasPrefix(msg, "proto: ") {
 		// protobuf-go prefixes the offending field's full name: keep the cause
 		if i := strings.LastIndex(msg, ": "); i >= 0 {
@@ -522,6 +531,7 @@ func runWorker(chk *Check, tier string, seed int64, worker, nworkers int, out, p
 	}
 	chk.Run(r)
 	r.st.Done = true
+	r.st.Enumerated = r.idx
 	r.checkpoint()
 }
 
@@ -561,6 +571,7 @@ func runParent(chk *Check, tier string, seed int64) int {
 	allKeys := map[uint64]struct{}{}
 	var crashes []crash
 	capHit := false
+	var enumerated []int64
 
 	if chk.SingleProcess {
 		r := newRunner(chk, tier, seed)
@@ -597,6 +608,9 @@ func runParent(chk *Check, tier string, seed int64) int {
 				crashes = append(crashes, cs...)
 				if st != nil {
 					mergeState(&merged, st)
+					if st.Done && !st.CapHit {
+						enumerated = append(enumerated, st.Enumerated)
+					}
 					if st.CapHit || !st.Done {
 						capHit = true
 					}
@@ -614,9 +628,22 @@ func runParent(chk *Check, tier string, seed int64) int {
 		}
 	}
 
+	// every worker enumerates the whole space: they must agree on its size,
+	// otherwise the enumeration is not deterministic (harness error, not a verdict)
+	for _, e := range enumerated {
+		if e != enumerated[0] {
+			fmt.Fprintf(os.Stderr, "harness error: workers enumerated different numbers of cases %v: the enumeration order is not deterministic\n", enumerated)
+			return 2
+		}
+	}
+
 	// crashes become violation groups
 	for _, c := range crashes {
-		sig := c.class + "|" + c.coord + "|" + c.detail
+		sc := c.coord
+		if i := strings.IndexByte(sc, 1); i >= 0 {
+			sc = sc[i+1:] // the case declared coarser signature coordinates
+		}
+		sig := c.class + "|" + sc + "|" + c.detail
 		g := merged.Groups[sig]
 		if g == nil {
 			g = &VGroup{Sig: sig, CaseID: c.caseID, Family: c.family, What: c.class + " while running case " + c.caseID + ": " + c.detail}
@@ -987,6 +1014,7 @@ var reSpace = regexp.MustCompile(`\s+`)
 // normalised (no digits, no quoted values, single spaces).
 func ErrTail(err error) string {
 	msg := strings.ReplaceAll(err.Error(), "\n", " ")
+	msg = strings.ReplaceAll(msg, "\u00a0", " ")
 	if i := strings.LastIndex(msg, ": "); i >= 0 {
 		msg = msg[i+2:]
 	}
